@@ -18,7 +18,7 @@ from typing import Dict, FrozenSet, Iterable, List, Optional, Set, Tuple
 from .core import Ctx
 from .index import ClassInfo, FunctionInfo, dotted, walk_no_nested
 from .torch_model import (FRESH_FUNCS, FRESH_METHODS, INPLACE_METHODS, META_INPLACE_METHODS, NONTENSOR_ATTRS, NONTENSOR_FUNCS,
-                          NONTENSOR_METHODS, VIEW_ATTRS, VIEW_FUNCS, VIEW_METHODS)
+                          NONTENSOR_METHODS, SAME_OBJECT_FUNCS, SAME_OBJECT_METHODS, VIEW_ATTRS, VIEW_FUNCS, VIEW_METHODS)
 
 Origin = object
 F, N, G = "F", "N", "G"
@@ -621,6 +621,13 @@ class _FunctionAnalysis:
                         self.mutate(recv, c, f".{name}()")
                     return recv
                 if name in META_INPLACE_METHODS:
+                    # shape / stride metadata changed in place: harmless on a view object made here, but the caller's own tensor when
+                    # the receiver may still be the very object that was passed in (kind "id")
+                    same = frozenset(o for o in shared(recv) if o[2] == "id" and o[0] == "P")
+                    if same and name not in ("retain_grad",) and self._maybe_tensor_expr(f.value, recv):
+                        self.mutate(same, c, f".{name}() [shape metadata]")
+                    return recv
+                if name in SAME_OBJECT_METHODS:
                     return recv
                 if name in VIEW_METHODS:
                     return weaken(recv) if shared(recv) else recv
@@ -645,6 +652,8 @@ class _FunctionAnalysis:
             # torch / F / numpy namespace functions
             full = d or name
             short = name
+            if short in SAME_OBJECT_FUNCS and args:
+                return args[0]
             if short in VIEW_FUNCS and args:
                 return weaken(args[0]) if shared(args[0]) else args[0]
             if short == "as_tensor" and args:
